@@ -29,3 +29,4 @@ func Implies(a, b bool) bool                   { return !a || b }
 func IteInt(c bool, a, b int) int              { return a }
 func IteF(c bool, a, b float64) float64        { return a }
 func IteU64(c bool, a, b uint64) uint64        { return a }
+func HalfToFloat64(h uint16) float64            { return 0 }
